@@ -55,14 +55,25 @@ func Check(init *qmodel.Model, evs []Event) string {
 			if !ok {
 				continue
 			}
-			c := m.Clone()
-			c.Edges = map[string]int{}
-			if why := c.Apply(evs[i].Op, evs[i].Obs, nil); why != "" {
-				lastWhy = fmt.Sprintf("%s %s: %s", evs[i].Thread, evs[i].Op, why)
-				continue
+			// a dequeue may or may not have swept a lease that expired within the backend's sweep granularity; without a
+			// listing the model cannot see which, so both readings are tried
+			variants := []bool{false}
+			if evs[i].Op.Kind == "deq" && m.Cfg.SweepGranularity > 0 {
+				variants = []bool{false, true}
 			}
-			if rec(done|1<<i, c) {
-				return true
+			for _, v := range variants {
+				c := m.Clone()
+				c.Edges = map[string]int{}
+				c.AssumeSwept = v
+				why := c.Apply(evs[i].Op, evs[i].Obs, nil)
+				c.AssumeSwept = false
+				if why != "" {
+					lastWhy = fmt.Sprintf("%s %s: %s", evs[i].Thread, evs[i].Op, why)
+					continue
+				}
+				if rec(done|1<<i, c) {
+					return true
+				}
 			}
 		}
 		dead[key] = true
